@@ -28,7 +28,7 @@ pub fn cases(ctx: &Ctx) -> Vec<WCase> {
 
 pub fn run_case(c: &WCase) -> Outcome {
     let o = Oracles { c04: true, ..Default::default() };
-    run_world_case(c, o, "C04", &|w, out| {
+    run_world_case(c, o, "C04", &[], &|w, out| {
         for (d, k) in w.obs.c04_dist.iter().enumerate() {
             if *k > 0 {
                 out.count(&format!("new_frame_distance_to_confirmed_{d:02}"), *k);
